@@ -1334,6 +1334,109 @@ pub(crate) mod verif_probe {
                     })
                 }))
             }
+            "get_shard_scenario" => {
+                // shard 0: primary + replica, shard 1: a primary only; primary_reads_enabled on (it is the ROUTER's business, never the pool's).
+                // Every (shard, role) is asked for several times (the candidate order is shuffled)
+                let rt = tokio::runtime::Builder::new_multi_thread().worker_threads(2).enable_all().build().unwrap();
+                Some(rt.block_on(async move {
+                    let csmap: ClientServerMap = Arc::new(Mutex::new(HashMap::new()));
+                    let user = User { username: "u".to_string(), password: None, auth_type: AuthType::Trust, pool_size: 1, ..User::default() };
+                    let mut all_addrs = vec![]; let mut all_pools = vec![]; let mut id = 0usize;
+                    for (si, roles) in [vec![Role::Primary, Role::Replica], vec![Role::Primary]].iter().enumerate() {
+                        let mut addrs = vec![]; let mut pools = vec![];
+                        for (ai, role) in roles.iter().enumerate() {
+                            let l = TcpListener::bind("127.0.0.1:0").await.unwrap();
+                            let port = l.local_addr().unwrap().port();
+                            tokio::spawn(behaving_postgres(l, "ok".to_string()));
+                            let a = Address { id, host: "127.0.0.1".to_string(), port, address_index: ai, replica_number: ai, shard: si, role: *role,
+                                              database: "db".to_string(), username: "u".to_string(), pool_name: "db".to_string(), ..Address::default() };
+                            let manager = ServerPool::new(a.clone(), user.clone(), "db", csmap.clone(), Arc::new(RwLock::new(None)), None, true, false, 0);
+                            pools.push(Pool::builder().max_size(1).connection_timeout(std::time::Duration::from_millis(400)).test_on_check_out(false).build_unchecked(manager));
+                            addrs.push(a); id += 1;
+                        }
+                        all_addrs.push(addrs); all_pools.push(pools);
+                    }
+                    let pool = ConnectionPool {
+                        databases: Arc::new(all_pools), addresses: Arc::new(all_addrs),
+                        banlist: Arc::new(RwLock::new(vec![HashMap::new(), HashMap::new()])), config_hash: 0,
+                        original_server_parameters: Arc::new(RwLock::new(ServerParameters::new())), auth_hash: Arc::new(RwLock::new(None)),
+                        settings: Arc::new(PoolSettings { user, db: "db".to_string(), ban_time: 3600, shards: 2, primary_reads_enabled: true, query_parser_enabled: true,
+                            query_parser_read_write_splitting: true, healthcheck_delay: 3_600_000, ..PoolSettings::default() }),
+                        validated: Arc::new(AtomicBool::new(true)), paused: Arc::new(AtomicBool::new(false)), paused_waiter: Arc::new(Notify::new()), prepared_statement_cache: None,
+                    };
+                    let stats = crate::stats::ClientStats::default();
+                    let mut gets = vec![];
+                    for shard in 0..2usize {
+                        for role in [None, Some(Role::Primary), Some(Role::Replica)] {
+                            for _ in 0..12 {
+                                let r = timeout(Duration::from_secs(5), pool.get(Some(shard), role, &stats)).await;
+                                let (gs, gr) = match r { Ok(Ok((conn, a))) => { drop(conn); (json!(a.shard), json!(format!("{:?}", a.role))) } _ => (Value::Null, Value::Null) };
+                                gets.push(json!({"shard": shard, "role": role.map(|r| format!("{:?}", r)), "got_shard": gs, "got_role": gr}));
+                                pool.banlist.write().iter_mut().for_each(|m| m.clear());
+                            }
+                        }
+                    }
+                    json!({"gets": gets})
+                }))
+            }
+            "plugin_resolution" => {
+                // general [plugins]: table_access DISABLED (over general_t); pool "own": a block of its own, table_access ENABLED over own_t; pool "plain": none
+                let rt = tokio::runtime::Builder::new_multi_thread().worker_threads(2).enable_all().build().unwrap();
+                Some(rt.block_on(async move {
+                    let tag = std::time::SystemTime::now().duration_since(std::time::UNIX_EPOCH).unwrap().as_nanos();
+                    let block = |t: &str, enabled: bool| crate::config::Plugins { intercept: None, query_logger: None, prewarmer: None,
+                        table_access: Some(crate::config::TableAccess { enabled, tables: vec![t.to_string()] }) };
+                    let mk = |plugins: Option<crate::config::Plugins>| {
+                        let mut pool = crate::config::Pool::default();
+                        pool.shards.clear();
+                        pool.shards.insert("0".to_string(), crate::config::Shard { database: "db".to_string(), mirrors: None,
+                            servers: vec![crate::config::ServerConfig { host: "127.0.0.1".to_string(), port: 1, role: Role::Primary }] });
+                        let mut user = User::default(); user.username = "u".to_string(); user.password = Some("pw".to_string());
+                        pool.users.insert("0".to_string(), user);
+                        pool.plugins = plugins;
+                        pool
+                    };
+                    let (own, plain) = (format!("own_{}", tag), format!("plain_{}", tag));
+                    let mut a = crate::config::Config::default();
+                    a.general.validate_config = false;
+                    a.plugins = Some(block("general_t", false));
+                    a.pools.insert(own.clone(), mk(Some(block("own_t", true))));
+                    a.pools.insert(plain.clone(), mk(None));
+                    crate::config::verif_probe::set_config(a);
+                    let csm: ClientServerMap = Arc::new(Mutex::new(HashMap::new()));
+                    if ConnectionPool::from_config(csm).await.is_err() { return json!({"error": "from_config failed"}); }
+                    let seen = |name: &str| get_pool(name, "u").and_then(|p| p.settings.plugins.clone()).and_then(|p| p.table_access).map(|t| (t.enabled, t.tables.clone()));
+                    let (o, p) = (seen(&own), seen(&plain));
+                    json!({"own_block_enforced": o == Some((true, vec!["own_t".to_string()])), "general_block_inherited": p == Some((false, vec!["general_t".to_string()])),
+                           "own": format!("{:?}", o), "plain": format!("{:?}", p)})
+                }))
+            }
+            "connect_settings" => {
+                // what a connection opened by bb8's connect hook is configured with, and what is sent on it before anybody uses it
+                let rt = tokio::runtime::Builder::new_multi_thread().worker_threads(2).enable_all().build().unwrap();
+                Some(rt.block_on(async move {
+                    let mut cfg = crate::config::Config::default();
+                    cfg.general.validate_config = false;
+                    cfg.plugins = Some(crate::config::Plugins { intercept: None, table_access: None, query_logger: None,
+                        prewarmer: Some(crate::config::Prewarmer { enabled: true, queries: vec!["SELECT 'general prewarm'".to_string()] }) });
+                    crate::config::verif_probe::set_config(cfg);
+                    let log: SharedLog = Arc::new(Mutex::new(RefLog::default()));
+                    let listener = TcpListener::bind("127.0.0.1:0").await.unwrap();
+                    let port = listener.local_addr().unwrap().port();
+                    tokio::spawn(ref_postgres(listener, log.clone(), 0));
+                    let user = User { username: "u".to_string(), password: None, auth_type: AuthType::Trust, pool_size: 1, ..User::default() };
+                    let csmap: ClientServerMap = Arc::new(Mutex::new(HashMap::new()));
+                    let a = Address { host: "127.0.0.1".to_string(), port, role: Role::Primary, database: "db".to_string(), username: "u".to_string(), pool_name: "connsettings".to_string(), ..Address::default() };
+                    // cleanup ON, parameter logging OFF, cache of 7, no plugins (the way a mirror's pool is built)
+                    let manager = ServerPool::new(a, user, "db", csmap, Arc::new(RwLock::new(None)), None, true, false, 7);
+                    let pool = Pool::builder().max_size(1).connection_timeout(std::time::Duration::from_millis(1500)).test_on_check_out(false).build_unchecked(manager);
+                    let conn = match pool.get().await { Ok(c) => c, Err(e) => return json!({"error": format!("connect failed: {:?}", e)}) };
+                    let (cleanup_seen, cache_seen) = crate::server::verif_probe::conn_settings(&conn);
+                    tokio::time::sleep(Duration::from_millis(100)).await;
+                    let queries: Vec<String> = log.lock().reqs.iter().map(|r| String::from_utf8_lossy(&r.bytes).to_string()).filter(|s| s.contains("prewarm")).collect();
+                    json!({"cleanup_given": true, "cleanup_seen": cleanup_seen, "cache_given": 7, "cache_seen": cache_seen, "queries_on_plain_connect": queries})
+                }))
+            }
             "connect_states" => {
                 // bb8 opens connections ahead of use (min_idle): how are they listed while nobody uses them?  and after a connect that failed?
                 let rt = tokio::runtime::Builder::new_multi_thread().worker_threads(2).enable_all().build().unwrap();
